@@ -36,6 +36,10 @@ def expand_id(by_id, scid, default_extra=3):
         if p.startswith("sweep-"):
             _, r, k, o = p.split("-")
             base["sweep"] = {"rec": int(r[1:]), "idx": int(k[1:]), "outcome": o}
+        elif p.startswith("again-"):
+            # what the code does depends on a Go map order: the replay repeats the run (see againN in the driver)
+            base["again"] = 12
+            base["id"] = "/".join(x for x in parts if not x.startswith("again-"))
         else:
             base["variant"] = p
     base.setdefault("variant", "crashBefore")
